@@ -26,7 +26,7 @@ ASSUMPTIONS = ["FastAggregateVerify with individually valid keys that sum to the
                "Aggregate on 96-byte entries that do not decode: any raised exception is accepted, returned bytes are not"]
 R = params.BLS_R
 E2 = params.BLS_E2
-PERTS = ["honest", "drop-signer", "dup-signer", "subst-key", "subst-message", "swap-messages", "subset-aggregate", "negated", "plus-torsion", "bitflip",
+PERTS = ["extra-identity-key", "key-plus-torsion", "honest", "drop-signer", "dup-signer", "subst-key", "subst-message", "swap-messages", "subset-aggregate", "negated", "plus-torsion", "bitflip",
          "more-keys", "more-messages", "empty", "empty-infinity", "bad-key", "identity-key", "repeated-message", "repeated-key"]
 
 
@@ -35,7 +35,7 @@ def shards(tier):
 
 
 def required_classes(tier):
-    out = ["av:" + p for p in PERTS if p not in ("identity-key",)] + ["fav:" + p for p in ("honest", "drop-signer", "dup-signer", "subst-key", "empty", "empty-infinity", "bad-key", "sk-and-r-sk", "negated", "other-message")]
+    out = ["av:" + p for p in PERTS if p not in ("identity-key",)] + ["fav:" + p for p in ("key-plus-torsion", "honest", "drop-signer", "dup-signer", "subst-key", "empty", "empty-infinity", "bad-key", "sk-and-r-sk", "negated", "other-message")]
     out += ["agg:multiplicity", "agg:sum", "agg:permutation", "agg:bracketing", "agg:refuse", "agg:undecodable", "suite:basic", "suite:aug", "suite:pop", "n>=2"]
     return out
 
@@ -49,6 +49,8 @@ def run(rec):
     quick = rec.tier == "quick"
     order2 = params.BLS_H2 * R
     T13 = CG.torsion_point(E2, order2, 13, rng)
+    order1 = params.BLS_H1 * R
+    T_G1 = [CG.torsion_point(params.BLS_E1, order1, q, rng) for q in (3, 11)] + [params.BLS_E1.mul(params.BLS_E1.rand_point(rng), R)]
     inf_sig = Z.enc_g2(None)
     rounds = 1 if quick else 6
     for rd in range(rounds):
@@ -162,6 +164,16 @@ def run(rec):
                     for bad in (Z.enc_g1(None), b"\x00" * 48, Z.enc_g1(params.BLS_E1.rand_point(rng))):
                         P2 = list(pks); P2[pos] = bad
                         av(pert, P2, msgs, agg)
+            elif pert == "extra-identity-key":
+                # an honest aggregate plus an identity key paired with a message nobody signed: e(H(m), O) = 1 would hide it
+                for pos in sorted({0, n}):
+                    av(pert, pks[:pos] + [Z.enc_g1(None)] + pks[pos:], msgs[:pos] + [b"nobody signed this"] + msgs[pos:], agg)
+                av(pert, [Z.enc_g1(None)], [b"m"], inf_sig)
+            elif pert == "key-plus-torsion":
+                # signer j's key replaced by key + T, T of small order on E(Fp): the pairing cannot tell (e(H, T) = 1), only KeyValidate can
+                T1 = T_G1[(rec.shard + j) % len(T_G1)]
+                P2 = list(pks); P2[j] = Z.enc_g1(params.BLS_E1.add(Z.dec_g1(pks[j]), T1))
+                av(pert, P2, msgs, agg)
             elif pert == "repeated-message":
                 # two signers on the same message: basic must refuse, aug/pop follow the sum rule
                 M2 = list(msgs) + [msgs[0]]
@@ -203,6 +215,9 @@ def run(rec):
         # keys sk and r - sk together: the aggregate key is the identity
         sk_neg = R - sks[0]
         pk_neg = bmon.register_key(sk_neg)
+        # key + small-order point with the honest aggregate: only the per-key subgroup check can refuse it
+        P2 = list(pks); P2[j] = Z.enc_g1(params.BLS_E1.add(Z.dec_g1(pks[j]), T_G1[rd % len(T_G1)]))
+        fav("key-plus-torsion", P2, msg, fagg)
         fav("sk-and-r-sk", [pks[0], pk_neg], msg, inf_sig)
         fav("sk-and-r-sk", [pks[0], pk_neg], msg, MB.aggregate([fs[0], bmon.m_sign("pop", sk_neg, msg)]))
         if n >= 2:
